@@ -127,6 +127,12 @@ check("C19", "exploration",
       "'Within a bounded number of polling intervals' is restated as order statements over counted events. A closed Monitor whose established connections still answer counts as reachable; verdicts on unreachability use the proxy-cut case. Up to four unsuccessful polls before the first success are tolerated.",
       "runtime monitoring: offline trace-specification checker over failure-detector hook events with fault injection via TCP proxy, race detector", "direct")
 
+
+check("C11", "exploration",
+      "One child process per case runs 2-7 real 2PC replicas over the package's LocalReplicaHandle, an in-process handle, or the real RPCReplicaHandle on 127.0.0.1, optionally behind a harness transport that delays, reorders, duplicates, drops and times out requests (incl. targeted overtaking of an Abort/Commit by the proposer's next message), with 1-6 real writer contexts (the shipped shcounter.ANode and hand-built increment / list-append / register archetypes, read-only sections, blind writes, failing sibling PreCommit). Oracles over H7 events: value per version single-valued across replicas, versions strictly increasing per replica, at most one winner per version, a committed section read the version just below the one it won, porcupine one-copy linearizability, final value = committed sections, per-message progress rule (an Abort of S for v at a replica holding S's pre-commit for v leaves it initial), no pre-commit left once nothing runs or is in flight; a panic of the code under test is a violation.",
+      "Progress is decided on counted events and a logical fixpoint, never on time; exceeding the proposal bound is inconclusive. Open known findings: the stale-message filter (identity-keyed, bypassed by LocalReplicaHandle, not atomic) allowing two winners; retry abandoned after message loss; two race-batch-only symptoms; one unexplained Commit-state crash.",
+      "runtime monitoring: offline checker over 2PC hook events + porcupine on section histories, fault-injecting transport, race detector", "direct")
+
 PROPS = [json.loads(l)["id"] for l in open(os.path.join(ROOT, "properties.jsonl"))]
 
 def main():
